@@ -868,6 +868,13 @@ V("c06-percentile-token-forgets-method", "C06", "R06.9", "dask_array/reductions/
   "        token = tokenize(a, q, method)", "        token = tokenize(a, q, internal_method)", expect="percentile")
 V("c06-twin-percentile-token-via-local", "C06", "-", "dask_array/reductions/_percentile.py",
   "        token = tokenize(a, q, method)", "        ingredients = (a, q, method)\n        token = tokenize(*ingredients)", twin=True)
+V("c03-grid-contract-direct-dependents-only", "C03", "R03.7", "dask_array/_expr.py",
+  "            if self._has_grid_sensitive_dependent(node, dependents, _seen):\n                return True\n", "", expect="_has_grid_sensitive_dependent")
+V("c03-grid-contract-recursion-result-ignored", "C03", "R03.7", "dask_array/_expr.py",
+  "            if self._has_grid_sensitive_dependent(node, dependents, _seen):\n                return True\n", "            self._has_grid_sensitive_dependent(node, dependents, _seen)\n", expect="_has_grid_sensitive_dependent")
+V("c03-twin-grid-contract-worklist", "C03", "-", "dask_array/_expr.py",
+  "        _seen = set() if _seen is None else _seen\n        for ref in dependents.get(expr._name, ()):\n            node = ref()\n            if node is None or node._name in _seen:\n                continue\n            _seen.add(node._name)\n            requires = getattr(node, \"_requires_grid_preservation\", None)\n            if requires is not None and requires(expr):\n                return True\n            if self._has_grid_sensitive_dependent(node, dependents, _seen):\n                return True\n        return False",
+  "        _seen = set() if _seen is None else _seen\n        frontier = [expr]\n        while frontier:\n            below = frontier.pop()\n            for ref in dependents.get(below._name, ()):\n                node = ref()\n                if node is None or node._name in _seen:\n                    continue\n                _seen.add(node._name)\n                requires = getattr(node, \"_requires_grid_preservation\", None)\n                if requires is not None and requires(below):\n                    return True\n                frontier.append(node)\n        return False", twin=True)
 V("c02-detector-uses-forward-permutation", "C02", "R02.6", "dask_array/_blockwise.py",
   "        inv = expr._inverse_axes\n        dep_mapping = tuple(parent_mapping[inv[i]] for i in range(len(inv)))", "        dep_mapping = tuple(parent_mapping[ax] for ax in expr.axes)", expect="_symbolic_mapping")
 V("c02-twin-detector-local-rename", "C02", "-", "dask_array/_blockwise.py",
